@@ -631,6 +631,18 @@ func (d *protoDom) call(st *sState, call *ssa.Call, name string, args []sVal) (b
 		d.setObj(st, args[0], &hProto{kind: kind, t: reduceConst(pOp(mod, t), mod), set: true})
 		set(args[0])
 		return true, nil
+	case "sm2/internal/fiat.(*SM2Element).Opp", "sm2/internal/fiat.(*SM2ScalarElement).Opp":
+		x := d.obj(st, args[1])
+		if x == nil || x.t == nil {
+			return fail("Opp of an unknown element")
+		}
+		kind, mod := "elem", "modP"
+		if strings.Contains(name, "Scalar") {
+			kind, mod = "scalar", "mod"
+		}
+		d.setObj(st, args[0], &hProto{kind: kind, t: reduceConst(pOp(mod, pNeg(stripMod(x.t, mod))), mod), set: true})
+		set(args[0])
+		return true, nil
 	case "sm2/internal/fiat.(*SM2Element).Square", "sm2/internal/fiat.(*SM2ScalarElement).Square":
 		x := d.obj(st, args[1])
 		if x == nil || x.t == nil {
